@@ -4,6 +4,7 @@ import MlModel.Lemmas.OwnerEnv
 import MlModel.Lemmas.OwnerComposite
 import MlModel.Lemmas.OwnerShared
 import MlModel.Lemmas.OwnerFin
+import MlModel.Lemmas.OwnerACExit
 /-!
 # C20 — worker liveness and ownership bookkeeping stays consistent
 
@@ -467,6 +468,110 @@ theorem C20_sched_fin_inside_finaliser (pw : Owner.Pid → List Owner.Wid) (x0 x
     (hctl : x.env.ctl t = .fin p o) : ∃ cl rest, (x.base.T t).cur = some (cl, .relAll p rest true) :=
   OwnerEnv.FinOK_reach hctl0 hr t p o hctl
 
+/-! ## `orchestrate.as_completed` as a program of the product LTS (round 11)
+
+`for r in as_completed(pool, tasks, ignore_failures)` is executed by the controller `OwnerEnv.Ctl.ac` (local state `OwnerEnv.AC`:
+the task iterator, `exhausted`, the retry stack `tasks`, `running_tasks`, the `preferred` set, the `workers` order of the current
+round; program `OwnerEnv.acPlan`, a line-by-line transcription of orchestrate.py:474–557).  Its yield points are the pool-level
+calls it makes (pieces of the ownership LTS: `workers` twice, `next_idle_worker(workers, maybe_acquire=True)`, `worker.submit`,
+`task.is_alive`, `acquired_workers`, `release_all(unused_workers)`, the final `release_all()`) and every `task.done()` poll (the
+future is shared with the transport).  The iteration order of the sets, `random.shuffle` and `random.sample` are ENVIRONMENT
+choices: every order / sample the Python semantics allows is accepted (`legalOrder`, `legalUnused`) and the chosen one is read off
+the prophecy script, like the pieces of `run`.  Task outcomes are the transport's (`deliver` ok / failed / never), worker deaths and
+revivals the environment threads'; the consumer may close the generator at any `yield` (`take`).  The harness replays the real
+`as_completed` against exactly this program, step by step (family `scheda`).  The theorems hold for the repaired code
+(`fixed = true`: F-C20-release-empty-set) and for the unrepaired control flow alike, except `C20_as_completed_release_never_empty`. -/
+
+/-- **Every way out of the body of `as_completed` goes through `finally: worker_pool.release_all()`.**  Between two pieces, a
+step of a thread in the body of `as_completed` of pool `a.p` — whatever the tasks did (result, exception with or without
+`ignore_failures`, never answered), whatever died (`TimeoutError('All workers timeout')`, `RuntimeError` of a worker that
+disconnected during `submit`, the `InvalidStateError` of a future completed behind `set_exception`), and when the consumer closes the
+generator at a `yield` — stays in the body (of the same pool), or starts the finaliser (`Ctl.fin a.p o`), or, when the pool has
+no worker at all and the finaliser ends at once, ends the operation with the thread just out of `finalize a.p`. -/
+theorem C20_as_completed_exits_through_finally (pw : Owner.Pid → List Owner.Wid) (x x' : OwnerEnv.X) (t : Owner.Tid)
+    (a : OwnerEnv.AC) (hcur : (x.base.T t).cur = none) (hctl : x.env.ctl t = .ac a)
+    (h : OwnerEnv.xstep? pw x t = some x') :
+    (∃ a', x'.env.ctl t = .ac a' ∧ a'.p = a.p) ∨ (∃ o, x'.env.ctl t = .fin a.p o) ∨
+    (x'.env.ctl t = .idle ∧ (∃ o, x'.env.outs t = x.env.outs t ++ [o]) ∧
+      (x'.base.T t).cur = none ∧ (x'.base.T t).exited = some a.p) :=
+  OwnerEnv.xstep_ac hcur hctl h
+
+/-- Inside a piece (a pool-level call of the body) the controller of `as_completed` does not move and records nothing. -/
+theorem C20_as_completed_inside_piece (pw : Owner.Pid → List Owner.Wid) (x x' : OwnerEnv.X) (t : Owner.Tid)
+    (a : OwnerEnv.AC) (cl : Owner.Call) (k : Owner.K) (hcur : (x.base.T t).cur = some (cl, k))
+    (hctl : x.env.ctl t = .ac a) (h : OwnerEnv.xstep? pw x t = some x') :
+    x'.env.ctl t = .ac a ∧ x'.env.outs t = x.env.outs t :=
+  OwnerEnv.xstep_ac_inCall hcur hctl h
+
+/-- **Released when `as_completed` ends — exhausted, raised, or closed early — under every schedule.**  Thread `t` is the only
+thread that acquires for pool `p`; initially no thread is inside a composite operation.  In any reachable configuration of the
+product in which `t` is executing `as_completed` of `p` (in its body, `Ctl.ac a` with `a.p = p`, or in its finaliser, `Ctl.fin p o`),
+the step after which the operation has ended — `t`'s controller is idle — leaves pool `p` without any acquired worker, and
+records an outcome.  Quantified over every task list, every outcome of every task, every fault of the environment (deaths,
+revivals, heartbeats, clock ticks, late / failed / missing replies), every choice of worker order and reserved sample, every
+moment at which the consumer closes the generator, every interleaving with other pools' and environment threads. -/
+theorem C20_as_completed_released_on_exit (pw : Owner.Pid → List Owner.Wid) (p : Owner.Pid) (t : Owner.Tid)
+    (x0 x x' : OwnerEnv.X) (h0 : Owner.Init x0.base) (hctl0 : ∀ t, x0.env.ctl t = .idle)
+    (hacq : ∀ t', t' ≠ t → ∀ op ∈ (x0.base.T t').script, op.pool = p → op.mayAcq = false)
+    (hr : OwnerEnv.XReach pw x0 x)
+    (hin : (∃ a, x.env.ctl t = .ac a ∧ a.p = p) ∨ ∃ o, x.env.ctl t = .fin p o)
+    (hs : OwnerEnv.xstep? pw x t = some x') (hidle : x'.env.ctl t = .idle) :
+    Owner.acquiredWorkers pw x'.base.W p = [] ∧ ∃ o, x'.env.outs t = x.env.outs t ++ [o] := by
+  rcases hin with ⟨a, hctl, hp⟩ | ⟨o, hctl⟩
+  · subst hp
+    cases hcur : (x.base.T t).cur with
+    | some ck =>
+      obtain ⟨cl, k⟩ := ck
+      have := (OwnerEnv.xstep_ac_inCall hcur hctl hs).1
+      rw [hidle] at this; exact absurd this (by simp)
+    | none =>
+      rcases OwnerEnv.xstep_ac hcur hctl hs with ⟨a', ha', _⟩ | ⟨o, ho⟩ | ⟨_, hout, hn, hex⟩
+      · rw [hidle] at ha'; exact absurd ha' (by simp)
+      · rw [hidle] at ho; exact absurd ho (by simp)
+      · exact ⟨C20_released_on_exit_shared pw a.p t x0.base x'.base h0 hacq
+          (OwnerEnv.XReach_base (OwnerEnv.XReach.step hr hs)) hn hex, hout⟩
+  · obtain ⟨h1, h2⟩ := C20_sched_composite_released pw p t x0 x x' h0 hctl0 hacq hr o hctl hs hidle
+    exact ⟨h1, o, h2⟩
+
+/-- **`as_completed` releases only through owner-checked releases of its own pool.**  Every piece its controller starts is the
+next operation of the thread's script, acts for the pool of the `as_completed`, and is an operation of the repaired code (no
+unconditional `Worker.release()`, no `release_all` that checks outside the lock) — so `C20_sched_release_only_owned_step`
+applies to every script that lets the controller through: no interleaving lets `as_completed` take a worker away from another
+pool.  Moreover a mid-run `release_all(ws)` (orchestrate.py:553) names only workers that the immediately preceding
+`acquired_workers` reported as the pool's own and on which none of the tasks in `running_tasks` was submitted. -/
+theorem C20_as_completed_release_only_owned (pw : Owner.Pid → List Owner.Wid) (x x' : OwnerEnv.X) (t : Owner.Tid)
+    (a : OwnerEnv.AC) (hcur : (x.base.T t).cur = none) (hctl : x.env.ctl t = .ac a)
+    (h : OwnerEnv.xstep? pw x t = some x') (hpiece : (x'.base.T t).script ≠ (x.base.T t).script) :
+    ∃ op s, (x.base.T t).script = op :: s ∧ op.pool = a.p ∧ op.repaired = true ∧
+      ∀ q ws, op = .releaseAll q ws →
+        ∃ acquired, OwnerEnv.lastRes x t = some (.workers acquired) ∧
+          ∀ w ∈ ws, w ∈ acquired ∧ ∀ r ∈ a.running, r.w ≠ w := by
+  unfold OwnerEnv.xstep? at h
+  simp only [hcur, hctl, OwnerEnv.cstep] at h
+  obtain ⟨op, s, hsc, hp, hrep, _, hrel⟩ := OwnerEnv.acstep_piece h hpiece
+  refine ⟨op, s, hsc, hp, hrep, ?_⟩
+  intro q ws hq
+  obtain ⟨acquired, hl, hws, _⟩ := OwnerEnv.RelSpec_workers (hrel q ws hq)
+  exact ⟨acquired, hl, hws⟩
+
+/-- **Repaired code: the mid-run release is never the "release everything" call.**  `WorkerPool.release_all(workers)` reads an
+empty collection as "all workers of the pool" (`workers = workers or self._workers`); the unrepaired `as_completed` called it with
+the empty set whenever every acquired worker was running a task or reserved — releasing exactly the workers it meant to keep
+(`Witness.C20_as_completed_empty_release`).  With `fixed = true` a `release_all(ws)` piece of the body has `ws ≠ []`, so — by
+`C20_as_completed_release_only_owned` — it releases no worker on which a running task was submitted. -/
+theorem C20_as_completed_release_never_empty (pw : Owner.Pid → List Owner.Wid) (x x' : OwnerEnv.X) (t : Owner.Tid)
+    (a : OwnerEnv.AC) (hfixed : a.fixed = true) (hcur : (x.base.T t).cur = none) (hctl : x.env.ctl t = .ac a)
+    (h : OwnerEnv.xstep? pw x t = some x') (q : Owner.Pid) (ws : List Owner.Wid) (s : List Owner.Op)
+    (hsc : (x.base.T t).script = .releaseAll q ws :: s) (hpiece : (x'.base.T t).script ≠ (x.base.T t).script) :
+    ws ≠ [] := by
+  unfold OwnerEnv.xstep? at h
+  simp only [hcur, hctl, OwnerEnv.cstep] at h
+  obtain ⟨op, s', hsc', _, _, _, hrel⟩ := OwnerEnv.acstep_piece h hpiece
+  rw [hsc] at hsc'
+  simp only [List.cons.injEq] at hsc'
+  obtain ⟨_, _, _, hne⟩ := OwnerEnv.RelSpec_workers (hrel q ws hsc'.1.symm)
+  exact hne hfixed
+
 /-! ## Non-vacuity: the hypotheses are satisfiable and the conclusions are reached -/
 
 section NonVacuity
@@ -560,6 +665,42 @@ set_option maxRecDepth 20000 in
 example : (OwnerEnv.xrun pw1 rcfg rsched2).env.outs 0 = [.ok] ∧
     acquiredWorkers pw1 (OwnerEnv.xrun pw1 rcfg rsched2).base.W 0 = [] ∧
     ((OwnerEnv.xrun pw1 rcfg rsched2).base.T 0).exited = some 0 := by decide
+
+
+/-! `as_completed` as a program: thread 0 consumes `as_completed(pool 0, [one task])` over worker 0 (alive, `max_parallelism` 2),
+with the prophecy script of the pieces its controller will ask for (repaired code); thread 1 = the transport delivering the reply. -/
+open OwnerEnv in
+def acfg (fixed : Bool) (script : List Op) : X :=
+  ⟨⟨fun _ => {}, fun t => if t = 0 then { script := script } else {}⟩,
+   { reg := fun a => if a = 0 then some (some 1000) else none, now := 1000, thr := 100, mp := fun _ => 2,
+     prog := fun t => if t = 0 then [.asCompleted 0 [false] false none fixed] else [],
+     escript := fun t => if t = 1 then [.deliver 0 false] else [] }⟩
+def acScript : List Op :=
+  [.aliveWorkers 0 false, .aliveWorkers 0 false, .nextIdle 0 [0] true, .submitW 0 0 0, .nextIdle 0 [0] true, .isAliveW 0 0,
+   .acquiredWorkers 0, .aliveWorkers 0 false, .aliveWorkers 0 false, .acquiredWorkers 0, .releaseAll 0 [0], .finalize 0]
+def acSched : List Tid := List.replicate 61 0 ++ [1] ++ List.replicate 18 0
+/-- (pool, workers of `running_tasks`, `exhausted`) of a controller in the body of `as_completed` -/
+def acObs : OwnerEnv.Ctl → Option (Pid × List Wid × Bool)
+  | .ac a => some (a.p, a.running.map (·.w), a.exhausted)
+  | _ => none
+
+example : Init (acfg true acScript).base := by
+  refine ⟨fun _ => rfl, fun t => ?_⟩
+  by_cases h0 : t = 0 <;> simp [acfg, h0]
+example : ∀ t, (acfg true acScript).env.ctl t = .idle := fun _ => rfl
+set_option maxRecDepth 100000 in
+/-- while the task runs (51 steps: the submit loop is over, the iterator exhausted, `acquired_workers` has answered) the
+controller is in the body of `as_completed` (hypothesis `hctl` of the theorems above), the worker is the pool's, the call is in flight:
+the repaired code releases nothing (test by evaluation) -/
+example : acObs ((OwnerEnv.xrun pw1 (acfg true acScript) (List.replicate 52 0)).env.ctl 0) = some (0, [0], true) ∧
+    ((OwnerEnv.xrun pw1 (acfg true acScript) (List.replicate 52 0)).base.W 0).pool = some 0 := by decide +kernel
+set_option maxRecDepth 100000 in
+/-- the whole run: the reply arrives, the result is yielded, the now unused worker is released by `release_all([0])`, the loop
+ends, the finaliser runs: outcome `ok`, nothing acquired, exit marker set (test by evaluation) -/
+example : (OwnerEnv.xrun pw1 (acfg true acScript) acSched).env.outs 0 = [.ok] ∧
+    acquiredWorkers pw1 (OwnerEnv.xrun pw1 (acfg true acScript) acSched).base.W 0 = [] ∧
+    ((OwnerEnv.xrun pw1 (acfg true acScript) acSched).base.T 0).exited = some 0 ∧
+    (OwnerEnv.xrun pw1 (acfg true acScript) acSched).env.ctl 0 = .idle := by decide +kernel
 
 end NonVacuity
 
